@@ -75,3 +75,77 @@ theorem cumulative_getElem (xs : List Nat) : ∀ (i : Nat) (h : i < (cumulative 
           simp [cumulative, ih j hj]
 
 end StarsimModel.InfectionCount
+
+namespace StarsimModel.InfectionCount
+
+/-- A time recorded in the future is never counted at the step of the infection: if `set_prognoses` writes
+    `ti_infected = t + k + 1` (any later time), `count_nonzero(ti_infected == t)` is 0. -/
+theorem new_zero_of_future (m : TiMap) (t k : Nat) (pop us : List Nat) (h : Before m t) :
+    newInfections (infect m (t + k + 1) us) pop t = 0 := by
+  unfold newInfections
+  rw [List.length_eq_zero_iff, List.filter_eq_nil_iff]
+  intro u _
+  unfold infect
+  by_cases hm : u ∈ us
+  · simp [hm]; omega
+  · simp only [hm, if_false]
+    cases hmu : m u with
+    | none => simp
+    | some j => have := h u j hmu; simp; omega
+
+/-- distinct agents: with permanent immunity every infection event hits a never-infected agent, so the number of agents
+    ever infected equals the number of events -/
+def everInfected (m : TiMap) (pop : List Nat) : Nat := (pop.filter fun u => (m u).isSome).length
+
+end StarsimModel.InfectionCount
+
+namespace StarsimModel.InfectionCount
+
+/-- every infection event hits an agent with no recorded infection (what permanent immunity + "only susceptibles are
+    infected" give: an infected agent never returns to susceptible) -/
+def NeverBefore (m : TiMap) (t : Nat) : List (List Nat × List Nat) → Prop
+  | [] => True
+  | (_, us) :: rest => (∀ u ∈ us, m u = none) ∧ NeverBefore (infect m t us) (t + 1) rest
+
+/-- all agents passed to `set_prognoses` during the run, in order -/
+def allEvents (steps : List (List Nat × List Nat)) : List Nat := steps.flatMap (·.2)
+
+theorem not_mem_events_of_recorded (steps : List (List Nat × List Nat)) : ∀ (m : TiMap) (t : Nat),
+    NeverBefore m t steps → ∀ u, m u ≠ none → u ∉ allEvents steps := by
+  induction steps with
+  | nil => intro m t _ u _; simp [allEvents]
+  | cons p rest ih =>
+      intro m t h u hu
+      obtain ⟨pop, us⟩ := p
+      simp only [NeverBefore] at h
+      simp only [allEvents, List.flatMap_cons, List.mem_append, not_or]
+      refine ⟨fun hin => hu (h.1 u hin), ?_⟩
+      apply ih (infect m t us) (t + 1) h.2 u
+      unfold infect
+      by_cases hm : u ∈ us
+      · simp [hm]
+      · simpa [hm] using hu
+
+theorem events_nodup (steps : List (List Nat × List Nat)) : ∀ (m : TiMap) (t : Nat),
+    NeverBefore m t steps → (∀ p ∈ steps, p.2.Nodup) → (allEvents steps).Nodup := by
+  induction steps with
+  | nil => intro m t _ _; simp [allEvents]
+  | cons p rest ih =>
+      intro m t h hn
+      obtain ⟨pop, us⟩ := p
+      simp only [NeverBefore] at h
+      simp only [allEvents, List.flatMap_cons]
+      rw [List.nodup_append]
+      refine ⟨hn (pop, us) (List.mem_cons_self ..), ih (infect m t us) (t + 1) h.2 (fun q hq => hn q (List.mem_cons_of_mem _ hq)), ?_⟩
+      intro a ha b hb hab
+      subst hab
+      have : infect m t us a ≠ none := by unfold infect; simp [ha]
+      exact not_mem_events_of_recorded rest (infect m t us) (t + 1) h.2 a this hb
+
+theorem sum_lengths_eq (steps : List (List Nat × List Nat)) :
+    (steps.map (fun p => p.2.length)).sum = (allEvents steps).length := by
+  induction steps with
+  | nil => simp [allEvents]
+  | cons p rest ih => simp [allEvents, List.flatMap_cons, List.length_append] at ih ⊢; try omega
+
+end StarsimModel.InfectionCount
